@@ -629,7 +629,9 @@ def _run(prop, tier, seed, replay, workdir, log, t0):
     if coqchk_out is not None:
         ev['coverage']['coqchk'] = coqchk_out
     if not replay:
-        with open(os.path.join(VERIF, 'evidence', '%s.json' % pid), 'w') as f:
+        evdir = os.environ.get('VERIF_EVIDENCE_DIR') or os.path.join(VERIF, 'evidence')   # seeded-change runs write elsewhere
+        os.makedirs(evdir, exist_ok=True)
+        with open(os.path.join(evdir, '%s.json' % pid), 'w') as f:
             json.dump(ev, f, indent=1)
     for l in out_lines:
         print(l)
